@@ -23,6 +23,7 @@ EXPLANATION = (
     "C01, C02, C05, C10 (checked separately); the engine's values are not decided here."
     ' As the end-to-end statement, C03 also evaluates the rules whose violation produces a false PASS: all C02 rules, the word-semantics rules of C06, constraint ownership / dump writer-reader / refinement exactness (C11, C04 R04.2), the core-cache rules of C16, fork-copy completeness (C20 R20.1/R20.2), the assertion-cheatcode rules of C13 and option forwarding (C18 R18.2/R18.7).'
     ' Round 4: symbol distinctness of calldata leaves (C12 R12.3 / C20 R20.5) and the loop-log / de-duplication rules of C10 (R10.2, R10.3) are evaluated here too, because C03 speaks of PASS without a bound warning.'
+    ' Round 5: the vm.assert* selector table (C13 R13.1) is evaluated here too.'
 )
 ASSUMPTIONS = ["C01/C02/C05/C10 clauses hold (separate checks)", "solc's Panic(uint256) encoding"]
 
